@@ -44,11 +44,23 @@ T read_binary(std::istream & fs)
         std::is_standard_layout_v<T>, "Binary IO type must be standard layout!"
     );
 
-    assert(fs.good() && !fs.eof() && !fs.fail() && !fs.bad());
+    if (!fs.good()) {
+        throw std::runtime_error(
+            "Deserialization of covfie vector field failed because the input "
+            "stream is not in a readable state."
+        );
+    }
 
     T rv;
 
     fs.read(reinterpret_cast<char *>(&rv), sizeof(T));
+
+    if (!fs || static_cast<std::size_t>(fs.gcount()) != sizeof(T)) {
+        throw std::runtime_error(
+            "Deserialization of covfie vector field failed because the input "
+            "stream ended prematurely or could not be read."
+        );
+    }
 
     return rv;
 }
